@@ -3,6 +3,11 @@ mod engine;
 mod gen;
 mod keys;
 mod proto;
+mod specref;
+mod rt;
+mod c01;
+mod c02;
+mod c08;
 mod c09;
 
 use engine::{Ctx, Tier};
@@ -15,6 +20,12 @@ fn main() {
   }
   engine::install_panic_hook();
   let id = args[1].as_str();
+  if id == "selftest" {
+    match specref::selftest() {
+      Ok(n) => { println!("specref self-test: {n} official vectors reproduced"); std::process::exit(0) }
+      Err(e) => { println!("specref self-test FAILED: {e}"); std::process::exit(2) }
+    }
+  }
   let seed: u64 = std::env::var("VERIF_SEED").ok().and_then(|s| s.parse().ok()).unwrap_or(0);
   macro_rules! dispatch {
     ($( $name:literal => $m:ident ),* $(,)?) => {
@@ -34,5 +45,5 @@ fn main() {
       }
     };
   }
-  dispatch!("C09" => c09);
+  dispatch!("C01" => c01, "C02" => c02, "C08" => c08, "C09" => c09);
 }
